@@ -777,7 +777,11 @@ class Engine:
         types = dict(contract.get('params', {}))
         types.update(case.get('params', {}))
         env = {}
+        derived = []
         for p in params:
+            if p in types and isinstance(types[p], tuple) and types[p] and types[p][0] == 'derived':
+                derived.append(p)          # built from the other arguments once they exist (e.g. a time on the sample grid)
+                continue
             if p in types:
                 # **kwargs is a dictionary built by the call itself: the function may change it freely
                 is_kw = fdef.args.kwarg is not None and fdef.args.kwarg.arg == p
@@ -787,6 +791,8 @@ class Engine:
                 if d is _NODEFAULT:
                     raise Unsupported('no type for parameter %s' % p)
                 env[p] = self.eval_in_module(d)
+        for p in derived:
+            env[p] = types[p][1](self, env)
         st.env = env
         st.entry_heap = dict(st.heap)
         self.entry_env = dict(env)
@@ -1564,6 +1570,13 @@ class Engine:
             x, y = to_int(a), to_int(b)
         else:
             x, y = to_real(a), to_real(b)
+            # p / d  vs  q / d  with the same positive d: compare the numerators (exact over the reals)
+            if z3.is_div(x) and z3.is_div(y) and x.arg(1).eq(y.arg(1)) and self.decide(x.arg(1) > 0) is True:
+                x, y = x.arg(0), y.arg(0)
+            elif z3.is_div(x) and z3.is_rational_value(y) and y.as_fraction() == 0 and self.decide(x.arg(1) > 0) is True:
+                x = x.arg(0)
+            elif z3.is_div(y) and z3.is_rational_value(x) and x.as_fraction() == 0 and self.decide(y.arg(1) > 0) is True:
+                y = y.arg(0)
         f = {ast.Lt: lambda: x < y, ast.LtE: lambda: x <= y, ast.Gt: lambda: x > y, ast.GtE: lambda: x >= y}
         return Z(f[type(op)](), BOOL)
 
